@@ -129,3 +129,17 @@ void des_model_selftest() {
     if (memcmp(c1, c2, 8)) { fprintf(stderr, "DES model disagrees with libgcrypt at sample %d\n", i); _exit(2); }
   }
 }
+
+// Workload helpers: build keys/blocks with a prescribed internal structure (what the key looks like after PC-1,
+// what the block looks like after IP) by inverting the standard's permutations.
+void des_key_from_cd(uint32_t c28, uint32_t d28, unsigned parity_noise, unsigned char out[8]) {
+  bit kb[64]; for (int i = 0; i < 64; i++) kb[i] = (parity_noise >> (i / 8)) & 1;   // bits PC-1 does not pick (8,16,..) keep the noise
+  for (int i = 0; i < 28; i++) { kb[PC1[i] - 1] = (c28 >> (27 - i)) & 1; kb[PC1[28 + i] - 1] = (d28 >> (27 - i)) & 1; }
+  from_bits(kb, out, 8);
+}
+void des_block_from_lr(uint32_t l, uint32_t r, unsigned char out[8]) {
+  bit lr[64], mb[64];
+  for (int i = 0; i < 32; i++) { lr[i] = (l >> (31 - i)) & 1; lr[32 + i] = (r >> (31 - i)) & 1; }
+  for (int i = 0; i < 64; i++) mb[IP[i] - 1] = lr[i];     // IP maps message bit IP[i] to position i
+  from_bits(mb, out, 8);
+}
